@@ -63,6 +63,35 @@ def segmentClipPinnedOpt (s e dur : Rat) (hop : Option Rat) (incl : Bool) :
 /-- what the uuid of a segment is computed from -/
 def segKey (parent : String) (p : Rat × Rat) : String × Rat × Rat := (parent, p.1, p.2)
 
+/-! ### identifiers, recording, number of segments (review R-C14) -/
+
+/-- the string `uuid5` is computed over: `f"segment_clip:{clip.uuid}:{start_time}:{end_time}"`;
+    `fmt` is Python's formatting of a float inside an f-string (`repr`: shortest round-trip
+    digits, hence injective, never containing ':'), a parameter of the model -/
+def segName (fmt : Rat → String) (parent : String) (p : Rat × Rat) : String :=
+  "segment_clip:" ++ parent ++ ":" ++ fmt p.1 ++ ":" ++ fmt p.2
+
+/-- a yielded clip: the recording it belongs to, its bounds, the name its uuid is computed from -/
+structure Seg where
+  recording : String
+  start : Rat
+  stop : Rat
+  name : String
+deriving DecidableEq, Repr
+
+/-- `segment_clip` with everything it puts into the yielded clips -/
+def segmentClipFull (fmt : Rat → String) (recording parent : String) (s e dur : Rat)
+    (hop : Option Rat) (incl : Bool) : Except Err (List Seg) :=
+  (segmentClipOpt s e dur hop incl).map
+    (·.map fun p => ⟨recording, p.1, p.2, segName fmt parent p⟩)
+
+/-- the number of segments in closed form: with `include_incomplete` the lattice points inside
+    the clip, without it the windows that fit -/
+def count (s e dur hop : Rat) (incl : Bool) : Nat :=
+  if incl then ((e - s) / hop).ceil.toNat
+  else if e - s < dur then 0
+  else ((e - s - dur) / hop).floor.toNat + 1
+
 /-! ### the executable statement of the property, for the monitor -/
 
 /-- the `i`-th lattice window exists: it starts inside the clip and, unless incomplete
